@@ -11,16 +11,17 @@ MANIFEST = dict(
     text="Coq theorems, unbounded in the diagram, the level and the evaluation point.  C18_landscape_equals_definition: for every diagram "
          "(birth <= death, coordinates inside the sentinels, births not closer than the 5e-6 tolerance unless equal) the transcription of "
          "construct_persistence_landscape_from_barcode (sort, characteristic-point sweep with all tie branches, std::unique) evaluated by the "
-         "transcription of compute_value_at_a_given_point (bisection) yields lambda_k(t) for all k, t.  lambda_k is non-negative, antitone in k, "
-         "permutation invariant; a PL function is determined by its values at its breakpoints; sums/differences on common breakpoints, the "
-         "transcribed scalar multiple and the transcribed abs() are pointwise; sup, L1 and L2 functionals: symmetric, zero on equal arguments, "
+         "transcription of compute_value_at_a_given_point (bisection) yields lambda_k(t) for all k, t.  C18_landscape_sum / _difference / _scale: "
+         "the transcribed operator+, operator- (merge of different breakpoint lists) and operator*(double) on constructed landscapes, read back by the "
+         "bisection, are the pointwise operations on lambda_k.  lambda_k is non-negative, antitone in k, permutation invariant; a PL function is "
+         "determined by its values at its breakpoints; the transcribed abs() is pointwise; sup, L1 and L2 functionals: symmetric, zero on equal arguments, "
          "triangle inequality (sup, L1, L2 via Cauchy-Schwarz); inner product symmetric and bilinear; the unrepaired grid evaluation is refuted "
          "and the repaired one returns the stored value at every grid point.  The transcription is tied to the C++ by running both on identical "
          "inputs (random + exhaustive small lattices + AddressSanitizer variant): breakpoints, values at every breakpoint/midpoint/outside for all "
          "levels, operations, integrals, distances, inner products, grid form at and between grid points.",
     note="Trusted: Coq kernel, extraction + OCaml driver, the hand transcription (validated by the differential run), g++/libm pow. "
-         "Not proved (kept as *_full definitions, compared per input): the merge of different breakpoint lists is pointwise; the algorithmic "
-         "distances equal the spec integrals; grid construction = lambda at grid points.  The closed forms seg_abs/seg_sq/seg_prod are taken as the "
+         "Not proved (kept as *_full definitions, compared per input): the algorithmic distances / inner product / average equal the spec "
+         "integrals; grid construction = lambda at grid points.  The closed forms seg_abs/seg_sq/seg_prod are taken as the "
          "integrals (no real analysis in the development).  L2 distances (pow(.,1/2)) and inner products off the 3-divisible lattice are the only "
          "float comparisons (relative 2^-40 / absolute 1e-7).",
     ref="design/C18.md")
